@@ -1,7 +1,91 @@
 import H5V.Proto
-/- engine `xmltok` (stub) -/
+import H5V.Model.XmlTok
+/- engine `xmltok` — xml5ever tokenizer.
+   `tok <opts> <state> <chunks>`: opts `exact=0|1,bom=0|1`; state = Rust Debug name or `-`;
+       chunks = space-hex strings separated by `|`.  Output: canonical tokens separated by `;`
+       (see harness/src/engines/xmltok.rs).
+   `tree …` exercises the real parser only: `no-model`. -/
 namespace H5V.Model.XmlTokDriver
+open H5V.Proto H5V.Model.XmlTok
 
-def runCase (_fields : List String) : String := "unimplemented"
+def allStates : List State :=
+  let ids : List DoctypeKind := [.pub, .sys]
+  [.data, .tagState, .endTagState, .endTagName, .endTagNameAfter, .pi, .piTarget, .piTargetAfter, .piData,
+   .piAfter, .markupDecl, .commentStart, .commentStartDash, .comment, .commentLessThan, .commentLessThanBang,
+   .commentLessThanBangDash, .commentLessThanBangDashDash, .commentEnd, .commentEndDash, .commentEndBang,
+   .cdata, .cdataBracket, .cdataEnd, .tagName, .tagEmpty, .tagAttrNameBefore, .tagAttrName, .tagAttrNameAfter,
+   .tagAttrValueBefore, .tagAttrValue .unquoted, .tagAttrValue .singleQuoted, .tagAttrValue .doubleQuoted,
+   .doctype, .beforeDoctypeName, .doctypeName, .afterDoctypeName]
+  ++ ids.map .afterDoctypeKeyword ++ ids.map .beforeDoctypeIdentifier
+  ++ ids.map .doctypeIdentifierDoubleQuoted ++ ids.map .doctypeIdentifierSingleQuoted
+  ++ ids.map .afterDoctypeIdentifier
+  ++ [.betweenDoctypePublicAndSystemIdentifiers, .bogusDoctype, .bogusComment]
+
+def parseState (s : String) : Option State :=
+  allStates.find? (fun st => st.dbg == s)
+
+/-- hex code points joined by `.`; `-` = empty -/
+def dh (s : Str) : String :=
+  if s.isEmpty then "-" else ".".intercalate (s.map (fun c => toHex c.toNat))
+
+def optDh : Option Str → String
+  | none => "~"
+  | some s => dh s
+
+def showQ (sep : String) (q : QName) : String := optDh q.pfx ++ sep ++ dh q.loc
+
+def showTok : Token → String
+  | .chars s => "C:" ++ dh s
+  | .tag t =>
+    let k := match t.kind with | .startTag => "s" | .endTag => "e" | .emptyTag => "m" | .shortTag => "h"
+    let attrs := ",".intercalate (t.attrs.map fun a => showQ "/" a.name ++ "=" ++ dh a.value)
+    "T:" ++ k ++ ":" ++ showQ ":" t.name ++ ":[" ++ attrs ++ "]"
+  | .pi t d => "P:" ++ dh t ++ ":" ++ dh d
+  | .comment s => "M:" ++ dh s
+  | .doctype d => "D:" ++ optDh d.name ++ ":" ++ optDh d.publicId ++ ":" ++ optDh d.systemId
+  | .error e => "E:" ++ dh e
+  | .eof => "EOF"
+
+/-- merge adjacent character tokens -/
+def canon : List Token → List Token
+  | .chars a :: .chars b :: rest => canon (.chars (a ++ b) :: rest)
+  | x :: rest => x :: canon rest
+  | [] => []
+termination_by l => l.length
+
+def showOut (out : Out) : String := ";".intercalate ((canon out.reverse).map showTok)
+
+def getOpt (opts : List (String × String)) (k : String) (d : Bool) : Bool :=
+  match opts.find? (·.1 == k) with
+  | some (_, v) => v == "1"
+  | none => d
+
+def runTok (optsS stateS chunksS : String) : String :=
+  let opts := (optsS.splitOn ",").filterMap fun p =>
+    match p.splitOn "=" with | [k, v] => some (k, v) | _ => none
+  let o : Opts := { exactErrors := getOpt opts "exact" false }
+  let st := if stateS == "-" then some State.data else parseState stateS
+  let chunks := (chunksS.splitOn "|").mapM parseChars?
+  match st, chunks with
+  | some st, some chunks =>
+    let m0 : Mach := { state := st, discardBom := getOpt opts "bom" true }
+    let r : Except String Mach := chunks.foldlM (fun (m : Mach) ch =>
+      match feed o m [] ch with
+      | .done m inp => if inp.isEmpty then .ok m else .error ("QUEUE-NOT-DRAINED " ++ showOut m.out)
+      | .panic e => .error ("PANIC " ++ e)
+      | .outOfFuel => .error "OUT-OF-FUEL") m0
+    match r with
+    | .error e => e
+    | .ok m =>
+      match finish o m with
+      | .error e => "PANIC " ++ e
+      | .ok m => showOut m.out
+  | _, _ => "bad-case"
+
+def runCase (fields : List String) : String :=
+  match fields with
+  | ["tok", optsS, stateS, chunksS] => runTok optsS stateS chunksS
+  | ["tree", _, _] => "no-model"
+  | _ => "bad-case"
 
 end H5V.Model.XmlTokDriver
